@@ -6,3 +6,5 @@ import ZbossModel.Props.C15
 #print axioms Zboss.Codec.C15_surplus_rejected
 #print axioms Zboss.Codec.C15_cut_before_status
 #print axioms Zboss.Codec.C15_table_rsp
+#print axioms Zboss.Codec.C15_sound
+#print axioms Zboss.Codec.C15_sound_all_classes
